@@ -56,7 +56,7 @@ func TestVF_C20(t *testing.T) {
 	r.Rule("case = ketama ring R of 1..12 distinct endpoints without availability zones, RF 1..min(5,n), and R+{e} where the new endpoint e sorts before / between / after the existing addresses or is random and is inserted at a random position of the list; " +
 		"2000 series (tenant from the alphabet) per pair; oracle: for every series the replica set {GetN(k), k<RF} on R+{e} equals the set on R, or equals it with exactly one member replaced by e; " +
 		"distinct = ring pair; non-trivial = at least one series moved onto e")
-	n := r.N(200, 3000)
+	n := r.N(200, 2500)
 	r.Require(int64(n)*int64(nSeries)/2, n/2)
 	r.Assume("endpoint addresses are distinct and non-empty; no availability zones (premise of the property)")
 
